@@ -22,7 +22,7 @@ if [ ! -d "$W/target" ] && [ -d "$ROOT/engine/target/release" ]; then
 fi
 bin="$(echo "$PROP" | tr 'A-Z' 'a-z')"
 export CARGO_NET_OFFLINE=true CARGO_TARGET_DIR="$W/target" VERIF_ROOT="$W/root"
-if ! (cd "$W/engine" && cargo build --release -p checks --bin "$bin" >"$W/build-$bin.log" 2>&1); then
+if ! (cd "$W/engine" && cargo build --release --bin "$bin" >"$W/build-$bin.log" 2>&1); then
   echo "INCONCLUSIVE property=$PROP build failed on tree $TREE (see $W/build-$bin.log)"; tail -n 30 "$W/build-$bin.log"; exit 2
 fi
 set +e
